@@ -4,11 +4,11 @@ from hypothesis import strategies as st
 from ..common import CaseInfo, Violation
 from ..oracles import Analysis, check_round_follows
 from ..simharness import CancelLog, ExecutionLog, MarketStepBeginLog, OrderLog, run_case
-from ..strategies import market_names, crossing_pair, program_strategy, spec_strategy
+from ..strategies import resolved_config, via_templates, market_names, crossing_pair, program_strategy, spec_strategy
 from ._sim_common import frac, summarize
 
 ID = "C16"
-RULE = ("(one case in three registers an unrelated probe event with TIMED execution / step hooks before the rules; once a market runs again and its session executes, every accepted order or cancel on it must be followed by a round: oracles.check_round_follows) Hypothesis generates 2 markets, a TradingHaltRule on one of them or (one case in four) on both (rate 0.005-0.1, haltingTimeLength 0-6), in a third of the cases a second independent rule (own rate, length, target) attached to "
+RULE = ("(fills are taken from the logger, judged with the probe's reading after the rule's own hook or, if no hook saw the fill, from the fill price; one run in three has a self-crossing agent, one in three a high-frequency agent; the obsolete referenceMarket key may be present) (one case in three registers an unrelated probe event with TIMED execution / step hooks before the rules; once a market runs again and its session executes, every accepted order or cancel on it must be followed by a round: oracles.check_round_follows) Hypothesis generates 2 markets, a TradingHaltRule on one of them or (one case in four) on both (rate 0.005-0.1, haltingTimeLength 0-6), in a third of the cases a second independent rule (own rate, length, target) attached to "
         "any session, 1-3 sessions with generated execution flags and lengths (so that halts end inside their session, at its "
         "end, or are cut by it), and scripted agents whose limit prices walk the price away from and back to the reference. A "
         "probe event registered after the rule records market price, p0 = get_market_price(0) and is_running after every fill. "
@@ -54,6 +54,7 @@ def cases(draw, tier):
         cfg["HALT"]["referenceMarket"] = draw(st.sampled_from(names))  # obsolete key, accepted with a warning: it changes nothing
     if draw(st.integers(0, 5)) == 0:
         cfg["HALT"]["enabled"] = False
+    via_templates(draw, cfg, "HALT")
     second = draw(st.integers(0, 2)) == 0
     if second:
         # a second, independent rule (a tiered breaker on the same market, or a rule on the other market)
@@ -79,7 +80,7 @@ def cases(draw, tier):
 def check_case(case):
     res = run_case(case, {"exec_state": True})
     A = Analysis(case, res)
-    sim, cfg = A.sim, case["config"]
+    sim, cfg = A.sim, resolved_config(case["config"])
     halt = cfg["HALT"]
     # the rules in the order their hooks were registered (session by session, event by event)
     rules = []
